@@ -35,6 +35,7 @@ func RunHistCheck(run *common.Run, hc HistCheck, n int) {
 	if hc.Opt.Props == nil {
 		hc.Opt.Props = map[string]bool{hc.Prop: true}
 	}
+	hc.Opt.Touch = run.Touch
 	var mu sync.Mutex
 	hits := map[string]*sigHit{}
 	stats := map[string]int{}
